@@ -20,10 +20,31 @@
             Add(p,c,i) = add ; moveTo(grid[i]))
      TRUE   Assembly/Block: Assembly.add places the block on top and re-establishes the block order
             (locators = positions); insert places at the index without re-indexing; Reestablish(p).
+            NGrp > 0: blocks may also hold component GROUPS (plain Composites of components, what the blueprints'
+            "component groups" build), so the tree below a block is two levels deep.
+
+   Reactor mode (Rx = TRUE): original 1 is a Reactor that holds the Core (2) and the SpentFuelPool (3) from the start;
+   4..3+NAsm are assemblies that come with their blocks (the remaining originals, AsmOfBlk).  The actions are the
+   reactor-level edits: Core.add(a, cell), Core.removeAssembly(a, discharge=False / True -> pool), two assemblies
+   trading places (moveTo), sortAssemsByRing / sort, deepcopy / pickle of the reactor or of the core.
+   Beyond the generic traversal queries the observation holds the reactor's own references (r.core, r.excore) and the
+   Core's block/assembly traversals (iterBlocks follows CHILD order, getAssemblies() is documented as LOCATION-sorted).
+
+   Already-owned objects (B2).  add/insert of an object that is still listed by ANOTHER parent: the specification
+   allows exactly the two outcomes that keep the tree invariants -- the object MOVES (leaves the former parent's list
+   with a detached locator, then is added) or the call is REFUSED with the state unchanged.  A third outcome, "stale"
+   (the former parent keeps listing the object), is what armi does today; it is written down ONLY for configurations
+   with Deviant = TRUE (emission / trace validation) so that the checker can tell this known deviation from any other
+   failure of the same call.  It is not an allowed outcome: the exhaustive configurations run with Deviant = FALSE and
+   the plain invariants; a stale state is terminal (every action is guarded by ~Dead), so the broken tree never feeds other clauses.
+
+   Aliasing law: a list handed out by a query is a snapshot.  Obs.stable = TRUE stands for "every list returned by a
+   query was emptied by the caller after it had been recorded, all queries were asked again, and the answers (and the
+   state) were the same"; SetChildrenSame(p) is p.setChildren(p.getChildren()) with the very list object returned.
 *)
 EXTENDS Integers, Sequences, FiniteSets, TLC, Json, SequencesExt, FiniteSetsExt
 
-CONSTANTS N, NOrig, NLoc, MaxLevel, Typed, MaxSet, NBlk, BlkGrid
+CONSTANTS N, NOrig, NLoc, MaxLevel, Typed, MaxSet, NBlk, BlkGrid, NGrp, Rx, NAsm, Deviant, WithOwned
 
 Node  == 1..N
 Orig  == 1..NOrig
@@ -36,12 +57,20 @@ vars == <<parent, kids, loc, att, live, orig>>
 FlagsOf(n) == LET o == orig[n] IN (IF o % 2 = 1 THEN {"A"} ELSE {}) \cup (IF (o \div 2) % 2 = 1 THEN {"B"} ELSE {})
 TypeOf(n)  == IF orig[n] % 3 = 0 THEN "t1x" ELSE IF orig[n] % 3 = 1 THEN "t1" ELSE "t2"
 
-\* typed mode (HexAssembly / HexBlock / Circle): original 1 is the assembly, 2..1+NBlk are blocks, the rest components
-Kind(n) == IF ~Typed THEN "gen" ELSE LET o == orig[n] IN IF o = 1 THEN "asm" ELSE IF o <= 1 + NBlk THEN "blk" ELSE "cmp"
-Fits(p, c) == ~Typed \/ (Kind(p) = "asm" /\ Kind(c) = "blk") \/ (Kind(p) = "blk" /\ Kind(c) = "cmp")
-HasGrid(n) == ~Typed \/ Kind(n) = "asm" \/ (BlkGrid /\ Kind(n) = "blk")   \* objects that own a spatialGrid (BlkGrid: blocks carry a pin lattice)
+\* typed mode (HexAssembly / HexBlock / [group] / Circle): original 1 is the assembly, 2..1+NBlk are blocks, the next NGrp are
+\* component groups, the rest components.  Reactor mode: 1 reactor, 2 core, 3 spent fuel pool, NAsm assemblies, the rest blocks.
+Kind(n) == LET o == orig[n] IN
+           IF Rx THEN (IF o = 1 THEN "rx" ELSE IF o = 2 THEN "core" ELSE IF o = 3 THEN "sfp" ELSE IF o <= 3 + NAsm THEN "asm" ELSE "blk")
+           ELSE IF ~Typed THEN "gen"
+           ELSE IF o = 1 THEN "asm" ELSE IF o <= 1 + NBlk THEN "blk" ELSE IF o <= 1 + NBlk + NGrp THEN "grp" ELSE "cmp"
+Fits(p, c) == ~Typed \/ (Kind(p) = "asm" /\ Kind(c) = "blk") \/ (Kind(p) = "blk" /\ Kind(c) \in {"cmp", "grp"})
+                     \/ (Kind(p) = "grp" /\ Kind(c) = "cmp")
+\* objects that own a spatialGrid (BlkGrid: blocks carry a pin lattice; a component group never has one)
+HasGrid(n) == IF Rx THEN Kind(n) \in {"core", "sfp", "asm"} ELSE ~Typed \/ Kind(n) = "asm" \/ (BlkGrid /\ Kind(n) = "blk")
 Places(p)  == Typed /\ Kind(p) = "asm"        \* Assembly.add places the block and re-establishes the block order
 SortKey(n) == IF Kind(n) = "cmp" THEN orig[n] ELSE loc[n]   \* Component.__lt__ orders by bounding circle (grows with orig id)
+\* reactor mode: the assembly a block is delivered in (block j goes to assembly j; surplus blocks on top of the first assembly)
+AsmOfBlk(b) == LET j == b - (3 + NAsm) IN IF j <= NAsm THEN 3 + j ELSE 4
 
 (* ---------- naive walks (the oracle for every traversal query) ---------- *)
 Rng(s) == {s[i] : i \in 1..Len(s)}
@@ -80,11 +109,21 @@ CopiesDisjoint == \A n \in live : orig[n] \in Orig
 
 (* ---------- helpers for actions ---------- *)
 Detached(c) == c \in live /\ parent[c] = 0
+\* a tree left broken by the known deviation (module header) is terminal.  Broken is what that means; Dead is the O(1) test used in
+\* the guards (a broken tree is only ever reached by the "stale" outcome, which act records); BrokenIsDead checks that they agree.
+Broken == \E p, c \in live : c \in Rng(kids[p]) /\ parent[c] # p
+Dead == act.n \in {"AddAttached", "InsertAttached"} /\ act.out = "stale"
+BrokenIsDead == Broken <=> Dead
+Tm == ~Rx /\ ~Dead    \* guard of the tree-mode actions
+Rm == Rx /\ ~Dead     \* guard of the reactor-mode actions
 CanTake(p, c) == Detached(c) /\ c \notin Rng(AncSelf(p)) /\ Fits(p, c)
 RemoveFrom(s, c) == SelectSeq(s, LAMBDA x : x # c)
 InsAt(s, k, c) == SubSeq(s, 1, k) \o <<c>> \o SubSeq(s, k + 1, Len(s))   \* python list.insert(k, c), 0 <= k <= len
 Positions(p, ks) == [n \in Node |-> IF n \in Rng(ks) THEN (CHOOSE i \in 1..Len(ks) : ks[i] = n) - 1 ELSE loc[n]]
-Ok(a) == err' = "" /\ act' = a
+\* domain: a component group that sits in a block always holds something (blueprints never build empty groups; armi computes
+\* area fractions when a block loses a child and divides by the total area of what remains)
+GroupsFilled == NGrp = 0 \/ \A g \in live : (Kind(g) = "grp" /\ parent[g] # 0) => kids[g] # <<>>
+Ok(a) == err' = "" /\ act' = a /\ GroupsFilled'
 Refuse(e, a) == UNCHANGED vars /\ err' = e /\ act' = a
 
 (* stable sort of a child list by location index (list.sort with ArmiObject.__lt__) *)
@@ -93,11 +132,23 @@ InsSorted(s, x) == LET i == CHOOSE i \in 0..Len(s) :
                               /\ (i = Len(s) \/ SortKey(s[i + 1]) > SortKey(x))
                    IN SubSeq(s, 1, i) \o <<x>> \o SubSeq(s, i + 1, Len(s))
 StableSort(s) == FoldLeft(LAMBDA acc, x : InsSorted(acc, x), <<>>, s)
-Sortable(p) == \A x \in Subtree(p) : Len(kids[x]) >= 2 => \A i \in 1..Len(kids[x]) : att[kids[x][i]] \/ Kind(kids[x][i]) = "cmp"
+\* with component groups (NGrp > 0: the components are Spheres, which armi can only order by their outer diameter) siblings are
+\* sortable when they are all components of different size, or all placed non-components
+Sortable(p) == \A x \in Subtree(p) : Len(kids[x]) >= 2 =>
+                   /\ \A i \in 1..Len(kids[x]) : att[kids[x][i]] \/ Kind(kids[x][i]) = "cmp"
+                   /\ NGrp > 0 => \A i, j \in 1..Len(kids[x]) : i # j =>
+                                      /\ (Kind(kids[x][i]) = "cmp") = (Kind(kids[x][j]) = "cmp")
+                                      /\ Kind(kids[x][i]) = "cmp" => orig[kids[x][i]] # orig[kids[x][j]]
+
+\* reactor mode helpers
+IsCore(k) == Rm /\ k \in live /\ Kind(k) = "core" /\ parent[k] # 0          \* a core inside a reactor (Core.add / removeAssembly need core.r)
+PoolOf(k) == FirstOr0(Filter(kids[parent[k]], LAMBDA x : Kind(x) = "sfp"))   \* r.excore["sfp"] of the core's reactor
+InTree(k) == Rng(kids[k]) \cup (IF PoolOf(k) = 0 THEN {} ELSE Rng(kids[PoolOf(k)]))
+CellFree(k, i) == \A x \in Rng(kids[k]) : loc[x] # i
 
 (* ---------- actions ---------- *)
 Add(p, c, i) ==
-    /\ p \in live /\ CanTake(p, c)
+    /\ Tm /\ p \in live /\ CanTake(p, c)
     /\ parent' = [parent EXCEPT ![c] = p]
     /\ LET ks == Append(kids[p], c) IN
        /\ kids' = [kids EXCEPT ![p] = ks]
@@ -106,11 +157,11 @@ Add(p, c, i) ==
     /\ UNCHANGED <<live, orig>> /\ Ok([n |-> "Add", p |-> p, c |-> c, i |-> i])
 
 AddPresent(p, c) ==
-    /\ p \in live /\ c \in Rng(kids[p])
+    /\ Tm /\ p \in live /\ c \in Rng(kids[p])
     /\ Refuse("RuntimeError", [n |-> "AddPresent", p |-> p, c |-> c])
 
 Insert(p, k, c, i) ==
-    /\ p \in live /\ CanTake(p, c) /\ k \in 0..Len(kids[p])
+    /\ Tm /\ p \in live /\ CanTake(p, c) /\ k \in 0..Len(kids[p])
     /\ parent' = [parent EXCEPT ![c] = p]
     /\ kids' = [kids EXCEPT ![p] = InsAt(kids[p], k, c)]
     /\ loc' = IF Places(p) THEN [loc EXCEPT ![c] = k] ELSE IF Typed THEN loc ELSE [loc EXCEPT ![c] = i]
@@ -118,11 +169,11 @@ Insert(p, k, c, i) ==
     /\ UNCHANGED <<live, orig>> /\ Ok([n |-> "Insert", p |-> p, k |-> k, c |-> c, i |-> i])
 
 InsertPresent(p, c) ==
-    /\ p \in live /\ c \in Rng(kids[p])
+    /\ Tm /\ p \in live /\ c \in Rng(kids[p])
     /\ Refuse("RuntimeError", [n |-> "InsertPresent", p |-> p, c |-> c])
 
 RemoveChild(p, c) ==
-    /\ p \in live /\ c \in Rng(kids[p])
+    /\ Tm /\ p \in live /\ c \in Rng(kids[p])
     /\ parent' = [parent EXCEPT ![c] = 0]
     /\ kids' = [kids EXCEPT ![p] = RemoveFrom(kids[p], c)]
     /\ att' = [att EXCEPT ![c] = FALSE]
@@ -130,47 +181,113 @@ RemoveChild(p, c) ==
 
 \* remove(x) of something that is not a child is refused (ValueError from list.remove) and changes nothing
 RemoveAbsent(p, c) ==
-    /\ p \in live /\ c \in live /\ c # p /\ c \notin Rng(kids[p])
+    /\ Tm /\ p \in live /\ c \in live /\ c # p /\ c \notin Rng(kids[p])
     /\ Refuse("ValueError", [n |-> "RemoveAbsent", p |-> p, c |-> c])
 
 \* Assembly._checkPotentialChild: only blocks of the assembly's block type are accepted (TypeError), nothing changes
 AddWrongType(p, c) ==
-    /\ Typed /\ p \in live /\ Kind(p) = "asm" /\ Detached(c) /\ Kind(c) = "cmp"
+    /\ Tm /\ Typed /\ p \in live /\ Kind(p) = "asm" /\ Detached(c) /\ Kind(c) \in {"cmp", "grp"}
     /\ Refuse("TypeError", [n |-> "AddWrongType", p |-> p, c |-> c])
 
 RemoveAll(p) ==
-    /\ p \in live /\ kids[p] # <<>>
+    /\ Tm /\ p \in live /\ kids[p] # <<>>
     /\ parent' = [n \in Node |-> IF n \in Rng(kids[p]) THEN 0 ELSE parent[n]]
     /\ att' = [n \in Node |-> IF n \in Rng(kids[p]) THEN FALSE ELSE att[n]]
     /\ kids' = [kids EXCEPT ![p] = <<>>]
     /\ UNCHANGED <<loc, live, orig>> /\ Ok([n |-> "RemoveAll", p |-> p])
 
 \* setChildren = removeAll ; add each (Composite.add does not place the child)
-SetChildren(p, s) ==
-    /\ p \in live
+SetChildrenAs(p, s, a) ==
+    /\ Tm /\ p \in live
     /\ \A i \in 1..Len(s) : s[i] \in Rng(kids[p]) \/ CanTake(p, s[i])
     /\ parent' = [n \in Node |-> IF n \in Rng(s) THEN p ELSE IF n \in Rng(kids[p]) THEN 0 ELSE parent[n]]
     /\ att' = [n \in Node |-> IF Places(p) /\ n \in Rng(s) THEN TRUE ELSE IF n \in Rng(kids[p]) THEN FALSE ELSE att[n]]
     /\ kids' = [kids EXCEPT ![p] = s]
     /\ loc' = IF Places(p) THEN Positions(p, s) ELSE loc
-    /\ UNCHANGED <<live, orig>> /\ Ok([n |-> "SetChildren", p |-> p, s |-> s])
+    /\ UNCHANGED <<live, orig>> /\ Ok(a)
+SetChildren(p, s) == SetChildrenAs(p, s, [n |-> "SetChildren", p |-> p, s |-> s])
+\* p.setChildren(p.getChildren()): the list handed out by the query is a snapshot, so this is SetChildren(p, kids[p])
+SetChildrenSame(p) == p \in live /\ kids[p] # <<>> /\ SetChildrenAs(p, kids[p], [n |-> "SetChildrenSame", p |-> p])
+
+(* add / insert of an object that another parent still lists (see the module header): moved | refused | (Deviant) stale *)
+Owned(p, c) == /\ Tm /\ p \in live /\ c \in live /\ parent[c] # 0 /\ parent[c] # p /\ c \in Rng(kids[parent[c]])
+               /\ c \notin Rng(AncSelf(p)) /\ Fits(p, c)
+               /\ ~(Kind(parent[c]) = "grp" /\ parent[parent[c]] # 0 /\ Len(kids[parent[c]]) = 1)   \* (GroupsFilled)
+TakeOwned(p, c, i, ks, placedAt, a) ==
+    LET po == parent[c] IN
+    \/ /\ parent' = [parent EXCEPT ![c] = p]
+       /\ kids' = [kids EXCEPT ![po] = RemoveFrom(kids[po], c), ![p] = ks]
+       /\ loc' = IF Places(p) THEN placedAt ELSE IF Typed THEN loc ELSE [loc EXCEPT ![c] = i]
+       /\ att' = IF Places(p) THEN [n \in Node |-> att[n] \/ n \in Rng(ks)] ELSE IF Typed THEN [att EXCEPT ![c] = FALSE] ELSE [att EXCEPT ![c] = TRUE]
+       /\ UNCHANGED <<live, orig>> /\ Ok([a EXCEPT !.out = "moved"])
+    \/ Refuse("Refused", [a EXCEPT !.out = "refused"])
+    \/ /\ Deviant
+       /\ parent' = [parent EXCEPT ![c] = p]
+       /\ kids' = [kids EXCEPT ![p] = ks]
+       /\ loc' = IF Places(p) THEN placedAt ELSE IF Typed THEN loc ELSE [loc EXCEPT ![c] = i]
+       /\ att' = IF Places(p) THEN [n \in Node |-> att[n] \/ n \in Rng(ks)] ELSE IF Typed THEN att ELSE [att EXCEPT ![c] = TRUE]
+       /\ UNCHANGED <<live, orig>> /\ Ok([a EXCEPT !.out = "stale"])
+AddAttached(p, c, i) ==
+    /\ Owned(p, c)
+    /\ LET ks == Append(kids[p], c) IN
+       TakeOwned(p, c, i, ks, Positions(p, ks), [n |-> "AddAttached", p |-> p, c |-> c, i |-> i, out |-> ""])
+InsertAttached(p, k, c, i) ==
+    /\ Owned(p, c) /\ k \in 0..Len(kids[p])
+    /\ TakeOwned(p, c, i, InsAt(kids[p], k, c), [loc EXCEPT ![c] = k], [n |-> "InsertAttached", p |-> p, k |-> k, c |-> c, i |-> i, out |-> ""])
+AddAttachedAny(p, c) == WithOwned /\ AddAttached(p, c, 0)
+InsertAttachedAny(p, c) == WithOwned /\ Owned(p, c) /\ \E k \in {0, Len(kids[p])} : InsertAttached(p, k, c, 0)
+\* the only tolerated failure of the first invariant: the state right after the known deviation (Deviant configurations only)
+KnownDeviation == Deviant /\ Dead
+OneParentListedOnceD == KnownDeviation \/ OneParentListedOnce
 
 MoveTo(c, i) ==
     \* typed mode: components are placed on their block's pin lattice (index 1 stands for a multi-cell locator)
-    /\ (~Typed \/ (BlkGrid /\ Kind(c) = "cmp")) /\ c \in live /\ parent[c] # 0 /\ (loc[c] # i \/ ~att[c])
+    /\ Tm /\ (~Typed \/ (BlkGrid /\ Kind(c) = "cmp")) /\ c \in live /\ parent[c] # 0 /\ HasGrid(parent[c]) /\ (loc[c] # i \/ ~att[c])
     /\ loc' = [loc EXCEPT ![c] = i] /\ att' = [att EXCEPT ![c] = TRUE]
     /\ UNCHANGED <<parent, kids, live, orig>> /\ Ok([n |-> "MoveTo", c |-> c, i |-> i])
 
 Sort(p) ==
-    /\ p \in live /\ kids[p] # <<>> /\ Sortable(p)
+    /\ ~Dead /\ (Rx => IsCore(p)) /\ p \in live /\ kids[p] # <<>> /\ Sortable(p)
     /\ kids' = [n \in Node |-> IF n \in Subtree(p) THEN StableSort(kids[n]) ELSE kids[n]]
     /\ UNCHANGED <<parent, loc, att, live, orig>> /\ Ok([n |-> "Sort", p |-> p])
 
 \* Assembly.reestablishBlockOrder: locators := positions
 Reestablish(p) ==
-    /\ Places(p) /\ p \in live /\ kids[p] # <<>>
+    /\ Tm /\ Places(p) /\ p \in live /\ kids[p] # <<>>
     /\ loc' = Positions(p, kids[p]) /\ att' = [n \in Node |-> att[n] \/ n \in Rng(kids[p])]
     /\ UNCHANGED <<parent, kids, live, orig>> /\ Ok([n |-> "Reestablish", p |-> p])
+
+(* ---------- reactor mode: Reactor > {Core, SpentFuelPool} > Assembly > Block ---------- *)
+\* Core.add(a, core.spatialGrid[cell i]): appended to the child list whatever the cell (assembly names are unique per reactor)
+CoreAdd(k, a, i) ==
+    /\ IsCore(k) /\ Detached(a) /\ Kind(a) = "asm" /\ CellFree(k, i) /\ \A x \in InTree(k) : orig[x] # orig[a]
+    /\ parent' = [parent EXCEPT ![a] = k] /\ kids' = [kids EXCEPT ![k] = Append(kids[k], a)]
+    /\ loc' = [loc EXCEPT ![a] = i] /\ att' = [att EXCEPT ![a] = TRUE]
+    /\ UNCHANGED <<live, orig>> /\ Ok([n |-> "CoreAdd", k |-> k, a |-> a, i |-> i])
+\* Core.removeAssembly(a, discharge=False): taken out of the model
+Purge(k, a) ==
+    /\ IsCore(k) /\ a \in Rng(kids[k])
+    /\ parent' = [parent EXCEPT ![a] = 0] /\ kids' = [kids EXCEPT ![k] = RemoveFrom(kids[k], a)] /\ att' = [att EXCEPT ![a] = FALSE]
+    /\ UNCHANGED <<loc, live, orig>> /\ Ok([n |-> "Purge", k |-> k, a |-> a])
+\* Core.removeAssembly(a, discharge=True) with assembly tracking: moved into the pool's first free cell (col/row filling)
+Discharge(k, a) ==
+    /\ IsCore(k) /\ a \in Rng(kids[k]) /\ PoolOf(k) # 0
+    /\ LET s == PoolOf(k) IN
+       /\ parent' = [parent EXCEPT ![a] = s]
+       /\ kids' = [kids EXCEPT ![k] = RemoveFrom(kids[k], a), ![s] = Append(kids[s], a)]
+       /\ loc' = [loc EXCEPT ![a] = Min({i \in 0..N : \A x \in Rng(kids[s]) : loc[x] # i})]
+       /\ att' = [att EXCEPT ![a] = TRUE]
+    /\ UNCHANGED <<live, orig>> /\ Ok([n |-> "Discharge", k |-> k, a |-> a])
+\* two assemblies of a core trade places (a.moveTo(b's cell); b.moveTo(a's cell)): the child order is untouched
+Swap(k, a, b) ==
+    /\ IsCore(k) /\ a \in Rng(kids[k]) /\ b \in Rng(kids[k]) /\ a < b
+    /\ loc' = [loc EXCEPT ![a] = loc[b], ![b] = loc[a]]
+    /\ UNCHANGED <<parent, kids, att, live, orig>> /\ Ok([n |-> "Swap", k |-> k, a |-> a, b |-> b])
+\* Core.sortAssemsByRing(): the child list ordered by (ring, position) of the cells (cell index order here)
+SortRing(k) ==
+    /\ IsCore(k) /\ Len(kids[k]) >= 2
+    /\ kids' = [kids EXCEPT ![k] = StableSort(kids[k])]
+    /\ UNCHANGED <<parent, loc, att, live, orig>> /\ Ok([n |-> "SortRing", k |-> k])
 
 (* deepcopy / pickle round trip of the subtree rooted at n: isomorphic, disjoint, re-linked, root detached *)
 FreeIds == Node \ live
@@ -179,7 +296,7 @@ CopyMap(n) == LET src == <<n>> \o Deep(n)
                   free == SetToSeqSorted(FreeIds)
               IN [i \in 1..Len(src) |-> <<src[i], free[i]>>]
 Copy(n, how) ==
-    /\ n \in live /\ Cardinality(Subtree(n)) <= Cardinality(FreeIds)
+    /\ ~Dead /\ (Rx => Kind(n) \in {"rx", "core"}) /\ n \in live /\ Cardinality(Subtree(n)) <= Cardinality(FreeIds)
     /\ LET cm  == CopyMap(n)
            new == {cm[i][2] : i \in 1..Len(cm)}
            M(x) == (CHOOSE i \in 1..Len(cm) : cm[i][1] = x)
@@ -196,7 +313,7 @@ Copy(n, how) ==
 
 \* Block.replaceBlockWithBlock(t): the receiver's children are replaced by the children of a private deep copy of t
 Replace(b, t) ==
-    /\ Typed /\ ~BlkGrid /\ b \in live /\ t \in live /\ b # t /\ Kind(b) = "blk" /\ Kind(t) = "blk"
+    /\ Tm /\ Typed /\ ~BlkGrid /\ b \in live /\ t \in live /\ b # t /\ Kind(b) = "blk" /\ Kind(t) = "blk"
     /\ Len(kids[t]) <= Cardinality(FreeIds)
     /\ LET free == SetToSeqSorted(FreeIds)
            k    == Len(kids[t])
@@ -217,10 +334,21 @@ SmallSeqs(S) == UNION {{s \in [1..k -> S] : \A i, j \in 1..k : i # j => s[i] # s
 RemoveAbsentWhereItMatters(p, c) == (parent[c] # 0 \/ kids[p] # <<>>) /\ RemoveAbsent(p, c)
 SetChildrenAny(p) == \E s \in SmallSeqs(live) : SetChildren(p, s)
 
-Init ==
+InitTree ==
     /\ parent = [n \in Node |-> 0] /\ kids = [n \in Node |-> <<>>] /\ loc = [n \in Node |-> 0] /\ att = [n \in Node |-> FALSE]
     /\ live = Orig /\ orig = [n \in Node |-> IF n \in Orig THEN n ELSE 1]
     /\ err = "" /\ act = [n |-> "Init"]
+\* reactor mode: the reactor holds core and pool, every assembly holds its blocks (stacked in id order), the core is empty
+BlksOf(a) == SetToSeqSorted({b \in Orig : b > 3 + NAsm /\ AsmOfBlk(b) = a})
+InitRx ==
+    /\ parent = [n \in Node |-> IF n \in {2, 3} THEN 1 ELSE IF n \in Orig /\ n > 3 + NAsm THEN AsmOfBlk(n) ELSE 0]
+    /\ kids = [n \in Node |-> IF n = 1 THEN <<2, 3>> ELSE IF n \in 4..(3 + NAsm) THEN BlksOf(n) ELSE <<>>]
+    /\ loc = [n \in Node |-> IF n \in Orig /\ n > 3 + NAsm
+                                THEN (CHOOSE j \in 1..Len(BlksOf(AsmOfBlk(n))) : BlksOf(AsmOfBlk(n))[j] = n) - 1 ELSE 0]
+    /\ att = [n \in Node |-> n \in Orig /\ n > 3 + NAsm]
+    /\ live = Orig /\ orig = [n \in Node |-> IF n \in Orig THEN n ELSE 1]
+    /\ err = "" /\ act = [n |-> "Init"]
+Init == IF Rx THEN InitRx ELSE InitTree
 
 Next ==
     \/ \E p, c \in Node : \E i \in (IF Typed THEN {0} ELSE LocIx) : Add(p, c, i)
@@ -228,11 +356,18 @@ Next ==
     \* refused removals: explored where they could matter (the object is owned elsewhere, or the receiver has children)
     \/ \E p, c \in Node : RemoveAbsentWhereItMatters(p, c)
     \/ \E p, c \in Node : \E k \in 0..N : \E i \in (IF Typed THEN {0} ELSE LocIx) : Insert(p, k, c, i)
-    \/ \E p \in Node : RemoveAll(p) \/ Sort(p) \/ Reestablish(p)
+    \/ \E p \in Node : RemoveAll(p) \/ Sort(p) \/ Reestablish(p) \/ SetChildrenSame(p)
     \/ \E p \in Node : SetChildrenAny(p)
     \/ \E c \in Node : \E i \in LocIx : MoveTo(c, i)
     \/ \E n \in Node : Copy(n, "DeepCopy") \/ Copy(n, "Pickle")
     \/ \E b, t \in Node : Replace(b, t)
+    \* already-owned objects: one cell / the two end positions are enough (the outcome does not depend on them)
+    \/ \E p, c \in Node : AddAttachedAny(p, c) \/ InsertAttachedAny(p, c)
+    \* reactor mode (every action carries its mode guard Tm / Rm; a tree left broken by the known deviation is terminal)
+    \/ \E k, a \in Node : \E i \in LocIx : CoreAdd(k, a, i)
+    \/ \E k, a \in Node : Purge(k, a) \/ Discharge(k, a)
+    \/ \E k, a, b \in Node : Swap(k, a, b)
+    \/ \E k \in Node : SortRing(k)
 
 Spec == Init /\ [][Next]_<<vars, err, act>>
 
@@ -255,7 +390,8 @@ QueriesAt(n) == [
     flagAB   |-> Filter(kids[n], LAMBDA x : HasFlags(x, {"A", "B"}, FALSE)),
     flagAorB |-> Filter(kids[n], LAMBDA x : HasFlags(x, {"A"}, TRUE) \/ HasFlags(x, {"B"}, TRUE)),
     deepB    |-> Filter(Deep(n), LAMBDA x : HasFlags(x, {"B"}, FALSE)),
-    type1    |-> Filter(kids[n], LAMBDA x : TypeOf(x) = "t1"),
+    \* (not asked of a reactor: Core and SpentFuelPool have no type-name parameter)
+    type1    |-> IF Kind(n) = "rx" THEN <<>> ELSE Filter(kids[n], LAMBDA x : TypeOf(x) = "t1"),
     anc      |-> AncChain(n),
     ancB     |-> FirstOr0(Filter(AncSelf(n), LAMBDA x : HasFlags(x, {"B"}, FALSE))),
     ancBx    |-> FirstOr0(Filter(AncSelf(n), LAMBDA x : HasFlags(x, {"B"}, TRUE))),
@@ -270,11 +406,28 @@ QueriesAt(n) == [
     flagAMat |-> WithMats(Filter(kids[n], LAMBDA x : HasFlags(x, {"A"}, FALSE))),
     gen2Mat  |-> WithMats(Gen(n, 2)),
     compsA   |-> Filter(CompsOf(n), LAMBDA x : HasFlags(x, {"A"}, FALSE)),
-    gridOwner |-> IF att[n] THEN parent[n] ELSE 0,
-    contains |-> SetToSeqSorted({c \in live : c \in Rng(kids[n])})
+    \* the owner of the grid the locator sits in: the parent -- except right after the known deviation (module header), where a
+    \* block / group that took an already-owned object did not touch its locator, which still sits in the former parent's grid
+    gridOwner |-> IF ~att[n] THEN 0
+                  ELSE IF Dead /\ Typed /\ ~Places(parent[n]) /\ (\E p \in live : n \in Rng(kids[p]) /\ parent[n] # p)
+                       THEN (CHOOSE p \in live : n \in Rng(kids[p]) /\ parent[n] # p) ELSE parent[n],
+    contains |-> SetToSeqSorted({c \in live : c \in Rng(kids[n])}),
+    \* a reactor's own references: r.core (the core found below it) and the ex-core registry r.excore (name -> child)
+    core     |-> IF Kind(n) = "rx" THEN FirstOr0(Filter(Deep(n), LAMBDA x : Kind(x) = "core")) ELSE 0,
+    excore   |-> IF Kind(n) = "rx" THEN Filter(kids[n], LAMBDA x : Kind(x) = "sfp") ELSE <<>>,
+    \* a core's traversals: iterBlocks / getFirstBlock / getFirstAssembly follow the child lists; getAssemblies() is
+    \* documented as sorted by location, getAssemblies(includeSFP) appends the pool's children
+    blocks   |-> IF Kind(n) = "core" THEN Gen(n, 2) ELSE <<>>,
+    blocksA  |-> IF Kind(n) = "core" THEN Filter(Gen(n, 2), LAMBDA x : HasFlags(x, {"A"}, FALSE)) ELSE <<>>,
+    blocksOdd |-> IF Kind(n) = "core" THEN Filter(Gen(n, 2), LAMBDA x : orig[x] % 2 = 1) ELSE <<>>,
+    firstBlk |-> IF Kind(n) = "core" THEN FirstOr0(Gen(n, 2)) ELSE 0,
+    firstAsm |-> IF Kind(n) = "core" THEN FirstOr0(kids[n]) ELSE 0,
+    asmByLoc |-> IF Kind(n) = "core" THEN StableSort(kids[n]) ELSE <<>>,
+    asmAll   |-> IF Kind(n) = "core" THEN StableSort(kids[n]) \o (IF parent[n] = 0 \/ PoolOf(n) = 0 THEN <<>> ELSE kids[PoolOf(n)]) ELSE <<>>
 ]
 
 Obs  == [parent |-> [n \in live |-> parent[n]], loc |-> [n \in live |-> loc[n]], att |-> [n \in live |-> att[n]],
-         orig |-> [n \in live |-> orig[n]], err |-> err, q |-> [n \in live |-> QueriesAt(n)]]
+         orig |-> [n \in live |-> orig[n]], err |-> err, q |-> [n \in live |-> QueriesAt(n)],
+         stable |-> TRUE]   \* the aliasing law (module header): answers are the same after the returned lists were emptied
 Vars == [parent |-> parent, kids |-> kids, loc |-> loc, att |-> att, live |-> live, orig |-> orig]
 =====================================================================================================
